@@ -10,10 +10,16 @@ Definition time_ok (now : Z) (c : claims) : Prop :=
   (forall n, cl_nbf c = Some n -> n <= now + 60) /\
   (forall i, cl_iat c = Some i -> i <= now + 60).
 
-Lemma validate_iff issuer now c :
-  validate issuer now c = true <-> cl_iss c = issuer /\ time_ok now c.
+Lemma validate_gen_iff issuer now c :
+  validate issuer now c = true <-> (issuer = [] \/ cl_iss c = issuer) /\ time_ok now c.
 Proof.
-  unfold validate, time_ok, leeway. rewrite !andb_true_iff, bytes_eqb_eq.
+  unfold validate, time_ok, leeway. rewrite !andb_true_iff.
+  assert (I : match issuer with [] => true | _ :: _ => bytes_eqb issuer (cl_iss c) end = true
+              <-> (issuer = [] \/ cl_iss c = issuer)).
+  { destruct issuer as [|x issuer].
+    - split; [now left | reflexivity].
+    - rewrite bytes_eqb_eq. split; [intro H; right; now symmetry | intros [H|H]; [discriminate | now symmetry]]. }
+  rewrite I. clear I.
   split.
   - intros [[[H1 H2] H3] H4]. split; [auto|]. repeat split.
     + intros e He. rewrite He in H3. apply negb_true_iff, Z.ltb_ge in H3. lia.
@@ -24,6 +30,17 @@ Proof.
     + destruct (cl_exp c) as [e|]; [|reflexivity]. apply negb_true_iff, Z.ltb_ge. specialize (H2 e eq_refl). lia.
     + destruct (cl_iat c) as [i|]; [|reflexivity]. apply negb_true_iff, Z.ltb_ge. specialize (H4 i eq_refl). lia.
 Qed.
+
+(** With a configured (non-empty) issuer the token's issuer must equal it. *)
+Lemma validate_iff issuer now c :
+  issuer <> [] -> (validate issuer now c = true <-> cl_iss c = issuer /\ time_ok now c).
+Proof.
+  intro Ne. rewrite validate_gen_iff. split.
+  - intros [[H|H] T]; [contradiction | now split].
+  - intros [H T]. split; [now right | exact T].
+Qed.
+
+Ltac const_ne := let H := fresh in intro H; vm_compute in H; discriminate H.
 
 Lemma alg_eqb_hs256 a : alg_eqb a HS256 = true <-> a = HS256.
 Proof. destruct a; split; intro H; try reflexivity; try discriminate; vm_compute in H; discriminate. Qed.
@@ -51,7 +68,7 @@ Proof.
     2:{ apply bytes_eqb_neq in K. split; [discriminate|]. intros [c' [H _]]. inversion H; subst. contradiction. }
     apply bytes_eqb_eq in K. subst key.
     destruct (validate PAA_CHECK_ISSUER now c) eqn:V; cbn [negb].
-    + apply validate_iff in V as [V1 V2].
+    + apply validate_iff in V as [V1 V2]; [|const_ne].
       destruct (idp (cl_at c)) as [s|] eqn:I; cbn [fst].
       * split.
         -- intro H. inversion H; subst. exists c. destruct V2 as [T1 [T2 T3]].
@@ -59,7 +76,7 @@ Proof.
         -- intros [c' [H [_ [_ [Hi [-> ->]]]]]]. inversion H; subst. rewrite I in Hi. inversion Hi. reflexivity.
       * split; [discriminate|]. intros [c' [H [_ [_ [Hi _]]]]]. inversion H; subst. rewrite I in Hi. discriminate.
     + split; [discriminate|]. intros [c' [H [Hi [Ht _]]]]. inversion H; subst.
-      assert (validate PAA_CHECK_ISSUER now c' = true) by (apply validate_iff; split; auto).
+      assert (validate PAA_CHECK_ISSUER now c' = true) by (apply validate_iff; [const_ne | split; auto]).
       congruence.
   - split; [discriminate | intros [c [H _]]; discriminate].
 Qed.
@@ -76,7 +93,7 @@ Proof.
   destruct (bytes_eqb key k) eqn:K; cbn [negb]; try discriminate.
   apply bytes_eqb_eq in K. subst key.
   destruct (validate PAA_CHECK_ISSUER now c) eqn:V; cbn [negb]; try discriminate.
-  apply validate_iff in V as [V1 V2]. intros _. exists c. auto.
+  apply validate_iff in V as [V1 V2]; [|const_ne]. intros _. exists c. auto.
 Qed.
 
 Lemma mint_paa_expiry k now user host ip atok tok :
@@ -144,12 +161,12 @@ Proof.
   - assert (Hsk : (blen sk =? 0)%N = false) by (apply N.ltb_lt in S; apply N.eqb_neq; lia).
     rewrite Hsk. cbn [negb]. rewrite direct_ok1, cbc_ok1, !bytes_eqb_refl, hs256_user_ok. cbn [andb].
     replace (validate USER_CHECK_ISSUER t _) with true; [reflexivity|].
-    symmetry. apply validate_iff. cbn. repeat split; try discriminate.
+    symmetry. apply validate_iff; [const_ne|]. cbn. repeat split; try discriminate.
     intros e He. inversion He. unfold USER_EXPIRY_SECONDS. cbn. lia.
   - assert (Hsk : (blen sk =? 0)%N = true) by (apply N.ltb_ge in S; apply N.eqb_eq; lia).
     rewrite Hsk. cbn [negb]. rewrite direct_ok2, cbc_ok2, bytes_eqb_refl. cbn [andb].
     replace (validate USER_CHECK_ISSUER t _) with true; [reflexivity|].
-    symmetry. apply validate_iff. cbn. repeat split; try discriminate.
+    symmetry. apply validate_iff; [const_ne|]. cbn. repeat split; try discriminate.
     intros e He. inversion He. unfold USER_EXPIRY_SECONDS. cbn. lia.
 Qed.
 
@@ -175,7 +192,7 @@ Proof.
     apply andb_true_iff in G as [G K]. apply bytes_eqb_eq in K. subst key.
     destruct i as [c| |]; try discriminate.
     destruct (validate USER_CHECK_ISSUER now c) eqn:V; [|discriminate].
-    intro H; inversion H; subst. apply validate_iff in V as [V1 V2].
+    intro H; inversion H; subst. apply validate_iff in V as [V1 V2]; [|const_ne].
     exists kalg, cenc, cty, (InClaims c), c.
     split; [reflexivity|]. split; [reflexivity|]. split; [exact V1|]. split; [exact V2|].
     right. split; reflexivity.
@@ -187,7 +204,7 @@ Proof.
     destruct (in_list (alg_name a) USER_SIG_ALGS && bytes_eqb skey sk) eqn:S; [|discriminate].
     apply andb_true_iff in S as [S1 S2]. apply bytes_eqb_eq in S2. subst skey.
     destruct (validate USER_CHECK_ISSUER now c) eqn:V; [|discriminate].
-    intro H; inversion H; subst. apply validate_iff in V as [V1 V2].
+    intro H; inversion H; subst. apply validate_iff in V as [V1 V2]; [|const_ne].
     exists kalg, cenc, cty, (InSigned a sk c), c.
     split; [reflexivity|]. split; [reflexivity|]. split; [exact V1|]. split; [exact V2|].
     left. split; [exact Hsk|]. exists a. split; [reflexivity | exact S1].
